@@ -68,6 +68,30 @@ CLAIMED = {
              'generator (see DESIGN.md).'),
 }
 
+CLAIMED['C18'] = dict(
+    technique='Lean 4 theorems by mutual induction over the nested value type (normal form, '
+              'idempotence, instant preservation, shape preservation, filter equivalence, '
+              'provenance library), tied to the code by helper correspondence and a direct oracle '
+              'over every write / filter / read path',
+    text='Lean 4 theorems about the model of helpers.patch_datetime_awareness_in_document and '
+         'make_datetime_timezone_aware_in_document, for ALL values at any nesting depth: patch is '
+         'idempotent, its result is in normal form (naive, whole milliseconds) and its fixed points '
+         'are exactly the normal values; two datetimes have the same stored form iff they denote '
+         'the same millisecond (also before 1970); patch changes nothing but datetimes (same keys, '
+         'order, lengths, leaves; commutes with path access); makeAware yields UTC-aware datetimes '
+         'at every depth with the same instant and round-trips through patch; a filter carrying any '
+         'datetime of the same millisecond selects the same documents (filterApplies after patch, '
+         'datetime at any position); a library of provenance lemmas (dset, derase, append, insert, '
+         'slice, filter, permutation, pad-and-set, path access) and reachable_date_inv reduce the '
+         'store invariant "every stored datetime is normal" to one lemma per writer. Tie: patch and '
+         'makeAware are compared with the real helpers on generated values, and the property is '
+         'stated directly on the real API: 42 write paths (stored documents must be normal and '
+         'denote the input millisecond), 15 filter-taking entry points x 11 filter forms queried '
+         'with an equivalent and a different millisecond, 26 read paths under tz_aware False/True.',
+    note='The store-level invariant for the full update language is covered by the direct oracle, '
+         'not yet by a theorem over MongoModel.step (the provenance lemmas are its ingredients). '
+         'PEP 495 fold, non-fixed-offset tzinfo and bson.Timestamp are out of scope.')
+
 PENDING = {
     'C02': 'model (MongoModel/Update.lean) and correspondence exist; theorems not yet proved',
     'C03': 'in progress: pipeline model depends on the expression model (C04)',
